@@ -179,9 +179,10 @@ FillBlackboxRes(st, name, sc) ==
        IN Ok(PrefixBBs(st4, sc, name))
 
 (* ---- remove_unloaded(inputs): worklist; pop order = the order argument (a sequence of choices) ----
-   AS BUILT: the initial worklist holds EVERY node that is not a bb_input, not an output and has no fan-out -
-   including primary inputs and blackbox outputs, whatever the flag says. *)
-InitUnloaded(st) == {n \in st.nodes : st.ty[n] # "bb_input" /\ ~st.out[n] /\ FanOut(st, n) = {}}
+   The initial worklist holds every node that is not a bb_input, not an output and has no fan-out - primary
+   inputs and blackbox outputs only when `inputs` is set (before the fix they were always included). *)
+InitUnloaded(st, inputs) == {n \in st.nodes : st.ty[n] # "bb_input" /\ ~st.out[n] /\ FanOut(st, n) = {}
+                                            /\ (inputs \/ st.ty[n] \notin {"input", "bb_output"})}
 \* one pop of node n from the worklist wl (a set here; the code uses a list, duplicates cannot arise in a DAG)
 PopEffect(st, wl, n, inputs) ==
   LET more == {f \in FanIn(st, n) : ~(~inputs /\ st.ty[f] \in {"input", "bb_output"})
@@ -194,7 +195,14 @@ RemoveUnloadedRun(st, wl, inputs, removed) ==
   ELSE LET n == CHOOSE x \in wl : TRUE
            r == PopEffect(st, wl, n, inputs)
        IN RemoveUnloadedRun(r.st, r.wl, inputs, removed \cup {n})
-RemoveUnloadedAsBuilt(st, inputs) == RemoveUnloadedRun(st, InitUnloaded(st), inputs, {})
+RemoveUnloadedAsBuilt(st, inputs) == RemoveUnloadedRun(st, InitUnloaded(st, inputs), inputs, {})
+
+(* ---- C16: the declarative meaning of remove_unloaded ---- *)
+RECURSIVE FwdClose(_,_)
+FwdClose(st, T) == LET T2 == T \cup UNION {FanOut(st, n) : n \in T} IN IF T2 = T THEN T ELSE FwdClose(st, T2)
+LiveNode(st, n) == \E m \in FwdClose(st, {n}) : st.out[m] \/ st.ty[m] = "bb_input"
+DeadSet(st, inputs) == {n \in st.nodes : ~LiveNode(st, n) /\ (st.ty[n] \in Gates \cup Consts \/ (inputs /\ st.ty[n] = "input"))}
+RemoveUnloadedSpec(st, inputs) == RemoveNodes(st, DeadSet(st, inputs))
 
 (* ---- invariants on the named state (C07) ---- *)
 StLegalWiring(st) ==
